@@ -139,6 +139,14 @@ func (g *c06Gen) next(httpOnly bool) c06Msg {
 		m := g.msg("initialize", "initialize", fmt.Sprintf(`{"protocolVersion":%q,"capabilities":{},"clientInfo":{"name":%q,"version":"1"}}`, v, name), "", false)
 		m.Name = name
 		return m
+	case x == 6 && r.Bool():
+		// initialize, and in the same breath a cancellation notice for it: the handler is still running when it arrives
+		name := fmt.Sprintf("client-%d", g.n+1)
+		m := g.msg("initialize", "initialize", fmt.Sprintf(`{"protocolVersion":"2025-06-18","capabilities":{},"clientInfo":{"name":%q,"version":"1"}}`, name), "", false)
+		m.Name = name
+		m.Sym = "initialize-cancelled"
+		m.Raw += "\n" + fmt.Sprintf(`{"jsonrpc":"2.0","method":"notifications/cancelled","params":{"requestId":%s,"reason":"changed my mind"}}`, m.ID)
+		return m
 	case x < 7:
 		return g.msg("initialize-bad", "initialize", r.Choose("", "null", `[1]`, `"x"`), "", false)
 	case x < 11:
@@ -272,6 +280,9 @@ func runC06(c *vh.Case, spec c06Spec) {
 			reachedMu.Lock()
 			reached = append(reached, method)
 			reachedMu.Unlock()
+			if method == "initialize" {
+				time.Sleep(300 * time.Microsecond) // long enough for a pipelined cancellation notice to arrive
+			}
 			return next(ctx, method, req)
 		}
 	})
@@ -376,8 +387,13 @@ func runC06(c *vh.Case, spec c06Spec) {
 				bad("discover-without-metadata-served", "server/discover without 2026-07-28 metadata must be method-not-found; reached=%v reply=%+v", reachedThis, rep)
 			}
 			return
-		case "initialize":
+		case "initialize", "initialize-cancelled":
 			if initName == "" {
+				if !rep.OK && m.Sym == "initialize-cancelled" && rep.Seen {
+					// answered with an error: then it was not accepted, and the session must still be uninitialized
+					rejects++
+					break
+				}
 				if !rep.OK {
 					bad("initialize-rejected", "first initialize was rejected: %+v", rep)
 					return
